@@ -65,6 +65,7 @@ type Obj struct {
 	Fstring  string
 	Fbool    bool
 	In       *Inner
+	Inv      Inner // a struct held by value: two-level accesses go through it
 	M        map[string]int64
 	S        []int64
 	Other    int64
@@ -256,6 +257,13 @@ func (w *world) snap() map[string]string {
 			}
 			continue
 		}
+		if f.Name == "Inv" {
+			iv := ov.Field(i)
+			for j := 0; j < iv.NumField(); j++ {
+				m["obj.Inv."+iv.Type().Field(j).Name] = fmt.Sprintf("%#v", iv.Field(j).Interface())
+			}
+			continue
+		}
 		if f.Name == "M" {
 			for k, v := range w.obj.M {
 				m["obj.M["+k+"]"] = fmt.Sprint(v)
@@ -291,6 +299,8 @@ func (w *world) target(path, kind string) (text, key string, get func() reflect.
 		return "obj.F" + kind, "obj.F" + kind, func() reflect.Value { return reflect.ValueOf(w.obj).Elem().FieldByName("F" + kind) }, ""
 	case "field2":
 		return "obj.In.F" + kind, "obj.In.F" + kind, func() reflect.Value { return reflect.ValueOf(w.obj.In).Elem().FieldByName("F" + kind) }, ""
+	case "field2v":
+		return "obj.Inv.F" + kind, "obj.Inv.F" + kind, func() reflect.Value { return reflect.ValueOf(&w.obj.Inv).Elem().FieldByName("F" + kind) }, ""
 	case "ptr":
 		return "p", "p", func() reflect.Value { return w.dyn["p"].Elem() }, ""
 	case "mapstr":
@@ -533,17 +543,23 @@ func runCell(c *Cell) []result {
 			// f(x K) K records its argument and hands it back; func2 has a second result
 			var fn reflect.Value
 			nOut := 1
-			if c.Path == "func2" {
+			if c.Path == "func2" || c.Path == "funcerr" {
 				nOut = 2
 			}
 			outs := []reflect.Type{pt}
-			if nOut == 2 {
+			if c.Path == "funcerr" {
+				outs = append(outs, reflect.TypeOf((*error)(nil)).Elem())
+			} else if nOut == 2 {
 				outs = append(outs, reflect.TypeOf(""))
 			}
 			ft := reflect.FuncOf([]reflect.Type{reflect.TypeOf(int64(0)), pt, reflect.TypeOf("")}, outs, false)
 			var got []reflect.Value
 			fn = reflect.MakeFunc(ft, func(args []reflect.Value) []reflect.Value {
 				got = args
+				if c.Path == "funcerr" {
+					// the Go convention (value, error) with a non-nil error: the rule still gets the first result
+					return []reflect.Value{args[1], reflect.ValueOf(fmt.Errorf("second result")).Convert(reflect.TypeOf((*error)(nil)).Elem())}
+				}
 				if nOut == 2 {
 					return []reflect.Value{args[1], reflect.ValueOf("second")}
 				}
